@@ -13,9 +13,12 @@ CLAIMED = {
     "C16": {
         "technique": "custom AST lint: comparator-shape recogniser (lexicographic cascade, symmetry, strictness, field whitelist) + who-uses check over all macro expansions",
         "text": ("Sufficient condition, decided on every run: the tie-break is a cascade of symmetric, total key comparisons closed by a strict "
-                 "byte comparison whose length an earlier stage equalised; it reads only timestamp, cancellation bit, type, size and payload; "
+                 "byte comparison whose length an earlier stage equalised (a size-specific fast path must compare exactly the payload size and be "
+                 "selected by already-equalised keys only); it reads only timestamp, cancellation bit, type, size and payload; "
                  "every heap operation, the straggler test and the matcher expand the canonical comparator (8 sites as built, 10 in the debug "
-                 "configuration); no ad-hoc timestamp or payload comparison exists elsewhere. With the lemma that a lexicographic composition of "
+                 "configuration); no ad-hoc timestamp or payload comparison exists elsewhere; the six sift loops of the event heaps have the "
+                 "operand roles and polarity of a min-heap, examine the sibling whenever it exists, update hole and candidate in step, and "
+                 "extract's child index and insert's parent index are inverse for all positions below 1024. With the lemma that a lexicographic composition of "
                  "strict weak orders is one, this gives the property for all triples of events. Not decided: NaN timestamps (invalid model)."),
         "note": TRUST + " The composition lemma is taken on trust.",
     },
@@ -50,8 +53,9 @@ CLAIMED["C17"] = {
     "text": ("Decided on every run: the phase variable is thread-local and advanced on every path; evaluating the function for each phase value "
              "shows consecutive uses take different counters, the two uses of a counter alternate direction and the automaton returns to phase 0 "
              "after 4 uses; both arrival RMWs are >= acq_rel; the leader flag is an equality test of the RMW result with 0 (up) / 1 (down); each "
-             "spin loop reloads the counter atomically and exits only at the thread count (up) or 0 (down). A different barrier algorithm is "
-             "reported inconclusive, not as a violation. NOT decided: 'nobody passes early' over all interleavings."),
+             "spin loop reloads the counter atomically and exits only at the thread count (up) or 0 (down); an exit condition of another form "
+             "is evaluated for 1..64 threads over the values the counter takes, and a definite early exit or stuck loop is a violation. A different "
+             "barrier algorithm is reported inconclusive, not as a violation. NOT decided: 'nobody passes early' over all interleavings."),
     "note": TRUST,
 }
 
@@ -123,14 +127,17 @@ CLAIMED["C05"] = {
 }
 
 CLAIMED["C11"] = {
-    "technique": "path-sensitive ownership typestate (use-after-release, double release) over all functions; exact interval evaluation with branch refinement for shift amounts; conservation checks of the checkpoint-size account; who-may-write table and linear-form comparison of send/receive size arithmetic; overflow-guard truth table",
+    "technique": "path-sensitive ownership typestate (use-after-release, double release) over all functions; exact interval evaluation with branch refinement for shift amounts; conservation checks of the checkpoint-size account; who-may-write table and linear-form comparison of send/receive size arithmetic; overflow-guard truth table; small-domain evaluation of the dynamic array's grow/shrink decisions at every macro expansion and operand-shape check of its memmoves",
     "text": ("Memory safety of the whole runtime is NOT decided (no sound whole-program analyser is available here). Decided on every run are the "
              "memory-safety clauses that are structural: no message buffer is dereferenced, passed on or released again after its release on any "
              "path of any function; every shift whose amount is an exact expression of bounded inputs (51 of 60 today; loop-variable amounts are "
              "listed as inconclusive) stays below its operand width for all inputs, including all 2^64 raw generator outputs; the checkpoint "
              "buffer account is conserved by all writers and checkpoint_take allocates exactly it; lp_msg.pl_size, which selects free-list vs "
              "free(), is written only by the allocator and the anti-message receive path with the allocated size, and the event receive buffer "
-             "arithmetic is the inverse of the sender's; rs_calloc's size product is overflow-checked."),
+             "arithmetic is the inverse of the sender's; rs_calloc's size product is overflow-checked; at each of the 11 expansions of the dynamic "
+             "array's grow step (history, checkpoint log, heaps, free lists, arenas) the decision, evaluated for all count <= capacity <= 12, leaves "
+             "room for the element(s) written next and the block is reallocated to the updated capacity * sizeof(element); array_push checks before "
+             "it stores; the memmoves of array_truncate_first (fossil collection) and array_add_at cover exactly the elements that move."),
     "note": TRUST + " Doubles are treated as reals in interval reasoning.",
 }
 CLAIMED["C12"] = {
@@ -191,15 +198,21 @@ CLAIMED["C14"] = {
 }
 
 CLAIMED["C19"] = {
-    "technique": "effect analysis over the call graph of the topology queries with parameter-to-argument binding at call sites; switch exhaustiveness and sibling agreement; set comparison of implemented directions, IsNeighbor's loop range and the candidate arrays' initialisers",
-    "text": ("Decided on every run: every function reachable from GetReceiver / CountDirections / IsNeighbor stores only to its locals (a store "
-             "through a parameter is attributed to whatever its call sites bind: binding a file-scope array is a violation), keeps no static "
-             "state and draws randomness only from the calling LP's generator, so the random choice is a function of that generator alone; "
-             "the three queries handle all 8 geometries and GetReceiver / IsNeighbor use the same helper per geometry; the directions each grid "
-             "helper implements are all tried by IsNeighbor's loop and are exactly the candidates (with the right count) offered to the random "
-             "choice. NOT decided: CountDirections' arithmetic and receiver validity for degenerate sizes (1xN, 1x1, one-region star)."),
-    "note": TRUST,
+    "technique": "effect analysis over the call graph of the topology queries (stores classified through pointer locals and parameters, propagated to the public entry points); switch exhaustiveness and sibling agreement; set comparison of implemented directions, IsNeighbor's loop range and the candidate arrays' initialisers; predicate abstraction of the grid arithmetic (both CountDirections and the per-geometry helper evaluated over the truth assignments of first/last column, first/last row, row parity); counted-loop range normalisation; path conditions",
+    "text": ("Decided on every run: every function reachable from GetReceiver / CountDirections / IsNeighbor stores only to its locals (stores through "
+             "pointer locals and parameters are followed to what they point to; one that reaches the shared topology or a file-scope array is a "
+             "violation), keeps no static state and draws randomness only from the calling LP's generator, so the random choice is a function of that "
+             "generator alone; the three queries handle all 8 geometries and GetReceiver / IsNeighbor use the same helper per geometry; the directions "
+             "each grid helper implements are all tried by IsNeighbor's loop and are exactly the candidates (with the right count) offered to the "
+             "random choice, which probes every one of them and leaves early only with a valid receiver; for hexagon, square and torus "
+             "CountDirections equals the number of fixed directions with a valid receiver on all 24 attainable combinations of first/last column, "
+             "first/last row and row parity (1xN, Nx1 and 1x1 maps are the combinations where first = last), every move is by one cell and "
+             "validated against the map size; ring counts equal the directions their helper answers; star / mesh / graph counts are regions-1 | 1, "
+             "regions-1 and the adjacency list's length; the star and mesh random draws are reached only when another region exists. NOT decided: "
+             "that the id returned for a valid move is that of the moved-to cell, and the probabilities of the random choices."),
+    "note": TRUST + " The abstraction assumes from < width*height and width, height >= 1 and < 2^32-1.",
 }
+
 CLAIMED["C20"] = {
     "technique": "cross-language agreement check (record layouts and write order from the C AST vs unpack formats, divisors and magic numbers from the Python parser's ast), exhaustiveness of the name table, bump/event pairing by dominance within one loop, must-use rule on gvt_phase_run's result",
     "text": ("Decided on every run: sizeof(struct stats_global) / stats_node / stats_thread equal the parser's calcsize formats, divisor and "
@@ -207,7 +220,9 @@ CLAIMED["C20"] = {
              "the fixed-size header records and the name records are written in the order they are read, with int64 size prefixes; every counter "
              "kind below STATS_COUNT has a name; each of the six event counters is bumped by 1 at exactly one site, paired (by dominance, within "
              "the same loop) with its event; counters are thread-local, written to the thread's file before being zeroed, after the "
-             "auto-checkpoint reader; thread 0 alone writes the node record; every call site of gvt_phase_run forwards completed rounds to "
+             "auto-checkpoint reader; thread 0 alone writes the node record; the per-thread record is written whenever a statistics file was "
+             "requested and the node record under the same condition by the thread elected with rid - nothing else (rank, GVT value, log level) "
+             "decides either, by classical control dependence; every call site of gvt_phase_run forwards completed rounds to "
              "stats_on_gvt or lies after the shutdown barrier. NOT decided: truth of timing and memory figures."),
     "note": TRUST + " The Python parser is read with the standard ast module.",
 }
@@ -221,7 +236,8 @@ CLAIMED["C02"] = {
              "and counted once for its destination and every receive counted once by the helper of its kind; through the four stamping helpers, "
              "for boundary ranks/threads (0, 1, MAX-2, MAX-1), both colours and extreme sequence numbers, the colour read is the colour written, "
              "the event and anti words differ exactly by ANTI, the word exceeds ANTI|PROCESSED (remote recognition), distinct senders get distinct "
-             "words and counters move by one; both matchers compare (sender word, sequence number) and every remote event is checked against "
+             "words and counters move by one; both matchers compare (sender word, sequence number), give up only at the end of their list (nothing "
+             "but the end-of-list and identity tests decides 'not found') and every remote event is checked against "
              "the early anti-messages before processing; cancelled remote buffers are released at GVT only; routing uses lid_to_nid."),
     "note": TRUST + " MPI's non-overtaking and progress guarantees are assumed, not checked.",
 }
